@@ -13,6 +13,10 @@ CLAIMED = {
    text="Rocq theorem chunking_irrelevant for EVERY reader program (the free monad in which all SOCKS/HTTP decoders are written): operational BufReader-style interpretation over any segment list equals the whole-input interpretation incl. bytes left unread; strictness of every decoder gives truncation_never_ok; StreamFrameReader stitching theorem. Tie: the same decoder programs are extracted and run on the same segment lists as the real decoders behind the real BufReader.",
    note="Trusted: Coq kernel, extraction, glue; tokio BufReader/read_exact/read_until/read_line are the modelled primitives (re-implemented by the operational interpreter and compared on every case).",
    tech="Rocq proof (free-monad reader programs, induction over programs and segment lists) + differential correspondence"),
+ "C05": dict(
+   text="Rocq theorems: every stream decoder of the model is a crash-free reader program, and crash-free programs never report a panic under ANY input, segmentation and EOF point; Frame::from_buffer, decode_address, decode_socks_frame, StreamFrameReader and the fragment reassembler never panic for any byte string / datagram sequence; the SOCKS5 connector never panics on any upstream reply; the inventory of potential panic sites (unwrap, indexing, Buf cursor ops, shifts, narrowing casts) regenerated from the source on every run equals the audited list (sites_fingerprint); Cargo profile premise (panic=abort). Tie: hostile inputs through every real decoder vs the extracted model with a 'no panic / no hang' oracle.",
+   note="Partial: decoder level only. Kernel/TLS/QUIC library behaviour, stalls (C13/C14) and resource exhaustion by connection count (finding D32) are not covered by the theorems; tproxy needs CAP_NET_ADMIN and is not exercised. Trusted: Coq kernel, extraction, translator gen/translate.py, driver glue.",
+   tech="Rocq proof (crash-freedom by induction over reader programs, totality of buffer decoders) + regenerated panic-site fingerprint + differential hostile-input correspondence"),
  "C03": dict(
    text="Rocq round-trip theorems writer->reader for every destination codec (SOCKS5 address and full request exchange, SOCKS4/4a, RPFM frame header, SOCKS-UDP header, HTTP CONNECT line incl. Host header) with exact characterisation of refusals; every theorem also states that exactly the following bytes are left. Tie: three-stage differential correspondence (inbound decode, outbound encode, next-hop decode) against the real codecs plus the implementation-only oracle reader(writer(t)) = t or refused.",
    note="Trusted: Coq kernel, extraction, glue. std's SocketAddr text form (IPv6 in particular) is an explicit premise (sockaddr_text_ok) of the CONNECT theorem; invalid UTF-8 inbound hosts are replaced by from_utf8_lossy before rules see them and are outside the theorem domain (compared for panics only).",
